@@ -122,6 +122,26 @@ class Result(object):
         return [d for d in self.diags if d.level == 0]
 
 
+def _include_dirs(case, scratch):
+    """Include search path of a case: the fixture directory plus case['include_paths']; case['shadow_includes'] adds
+    directories holding an OLDER COPY of FooBar-1.0.gir (one definition fewer) before or after it, as happens with an
+    uninstalled build tree next to an installed copy - the first directory on the list must win."""
+    before, after = [], []
+    for i, sh in enumerate(case.get('shadow_includes') or []):
+        d = os.path.join(scratch, 'shadow-include-%d' % i)
+        os.makedirs(d, exist_ok=True)
+        src = open(os.path.join(FIXTURES, 'FooBar-1.0.gir')).read()
+        if sh.get('drop') == 'Thing':
+            a, b = src.index('    <record name="Thing"'), src.index('</record>') + len('</record>\n')
+            src = src[:a] + src[b:]
+        elif sh.get('drop') == 'Id':
+            src = src.replace('<type name="guint32" c:type="guint32"/></alias>', '<type name="guint64" c:type="guint64"/></alias>', 1)
+        with open(os.path.join(d, 'FooBar-1.0.gir'), 'w') as f:
+            f.write(src)
+        (before if sh.get('pos') == 'before' else after).append(d)
+    return before + [FIXTURES] + list(case.get('include_paths', [])) + after
+
+
 def run(case, scratch, cache=False, writer=True, passes=('main', 'introspectable'), warn_all=True,
         sources_roots=('/src',), spawn=None):
     """Run the pipeline. Exceptions other than SystemExit propagate (the caller decides
@@ -150,7 +170,7 @@ def run(case, scratch, cache=False, writer=True, passes=('main', 'introspectable
                                   identifier_filter_cmd=case.get('identifier_filter_cmd') or None,
                                   symbol_filter_cmd=case.get('symbol_filter_cmd') or None)
             res.transformer = tr
-            tr.set_include_paths([FIXTURES] + list(case.get('include_paths', [])))
+            tr.set_include_paths(_include_dirs(case, scratch))
             if not cache:
                 tr.disable_cache()
             res.stage = 'includes'
